@@ -49,16 +49,18 @@ func (f *Font) Subset(glyphs []glyph.ID) *Font {
 	}
 
 	res.Gsub = s.SubsetGsub(f.Gsub)
-	// At this point we have the final list of glyphs.
-	res.Gpos = s.SubsetGpos(f.Gpos)
-	res.Gdef = s.SubsetGdef(f.Gdef)
 
+	// Composite glyphs add their components to the list of glyphs.
 	switch outlines := f.Outlines.(type) {
 	case *cff.Outlines:
 		res.Outlines = s.SubsetCFF(outlines)
 	case *glyf.Outlines:
 		res.Outlines = s.SubsetGlyf(outlines)
 	}
+
+	// At this point we have the final list of glyphs.
+	res.Gpos = s.SubsetGpos(f.Gpos)
+	res.Gdef = s.SubsetGdef(f.Gdef)
 
 	// The character map is done last, so that characters of glyphs which
 	// have been added above (ligatures, components) stay mapped.
